@@ -250,18 +250,22 @@ func consulScenarios(c *common.Ctx, r *common.Rand) error {
 	if b.Store.IsPrimary() {
 		holder = b
 	}
+	// (the role under that session ends when its primary-scoped context is cancelled; the same node may win the
+	// next election a moment later, so polling IsPrimary could miss the gap)
+	hctx := holder.Store.PrimaryCtx(bgc)
 	fc.mu.Lock()
 	for id := range fc.sessions {
 		fc.invalidate(id, "operator")
 	}
 	fc.mu.Unlock()
 	t0 := time.Now()
-	for holder.Store.IsPrimary() && time.Since(t0) < 2*ttl {
-		time.Sleep(3 * time.Millisecond)
+	select {
+	case <-hctx.Done():
+	case <-time.After(2 * ttl):
 	}
 	c.Evaluations++
 	c.Distinct("consul:session-gone")
-	if holder.Store.IsPrimary() {
+	if hctx.Err() == nil {
 		c.Violate("C08:consul:session-gone", fmt.Sprintf("%.1fs after its Consul session was invalidated (TTL %s) the node is still primary", time.Since(t0).Seconds(), ttl), rep)
 	} else if d := time.Since(t0); d > ttl/2+700*time.Millisecond {
 		c.Violate("C08:consul:session-gone-late", fmt.Sprintf("the node kept the primary role for %s after its session was invalidated; renewals run every %s", d, ttl/2), rep)
